@@ -101,6 +101,8 @@ class dict_store(base_store):
         if self.can_load(name):
             self.counts[_gen_key('true-del',name)] += 1
             del self.store[_resultname(name)]
+            return True
+        return False
 
 
     def cleanup(self, active, keeplocks=False):
